@@ -22,9 +22,11 @@ CONSTANTS Keys,                  \* subset of {"k1","k2","k3"}; a key names a se
           DevWriteToReplica,     \* deviation: UploadSegment goes to the read client
           DevListFromReplica,    \* deviation: ListSegments asks the read client
           DevNoFallbackOnCtxErr, \* deviation: a cancel/deadline-class error of the REPLICA ends the read (the caller's ctx is not consulted)
-          DevReplicaTimeoutShadows \* deviation: a replica read timeout derived with ctx := WithTimeout(ctx) shadows the caller's ctx, so the fallback runs on the expired context
-VARIABLES prim, primFail, rep, written, last, hist
-vars == <<prim, primFail, rep, written, last, hist>>
+          DevReplicaTimeoutShadows, \* deviation: a replica read timeout derived with ctx := WithTimeout(ctx) shadows the caller's ctx, so the fallback runs on the expired context
+          Concurrent,            \* TRUE: two readers may overlap (a second read starts while the first is parked inside its primary GET)
+          DevCoalesceIgnoresRange \* deviation: concurrent primary-fallback reads are coalesced per object key, the byte range is not part of the key
+VARIABLES prim, primFail, rep, written, rd, last, hist
+vars == <<prim, primFail, rep, written, rd, last, hist>>
 
 R_small == {<<0, 1>>, <<2, 9>>, <<7, 9>>}                           \* inside, clamped at the end, entirely past the end
 R_big == {<<0, 1>>, <<1, 2>>, <<2, 9>>, <<3, 3>>, <<7, 9>>}
@@ -51,12 +53,20 @@ Call(b, op, k, rng) == [b |-> b, op |-> op, k |-> k, rng |-> rng]
 ResA(op, k, rng, ok, bytes, listed, calls, alive) == [op |-> op, k |-> k, rng |-> rng, ok |-> ok, bytes |-> bytes, listed |-> listed, calls |-> calls, alive |-> alive]
 Res(op, k, rng, ok, bytes, listed, calls) == ResA(op, k, rng, ok, bytes, listed, calls, TRUE)
 
+\* overlapping reads: a reader is idle, parked inside its primary GET ("gate"), waiting on another reader's coalesced
+\* GET ("flight", only under DevCoalesceIgnoresRange) or holding that GET's result ("done")
+Readers == {"A", "B"}
+Idle == [st |-> "idle", op |-> "", k |-> "", rng |-> <<>>, asked |-> <<>>, lead |-> "", res |-> Err]
+Busy == \E r \in Readers : rd[r].st # "idle"
+
 Init == /\ prim = [kd \in Kinds |-> [k \in Keys |-> FALSE]] /\ primFail = FALSE
         /\ rep = [kd \in Kinds |-> [k \in Keys |-> "absent"]]
         /\ written = [kd \in Kinds |-> [k \in Keys |-> FALSE]]
+        /\ rd = [r \in Readers |-> Idle]
         /\ last = Res("init", "", <<>>, TRUE, <<>>, <<>>, <<>>) /\ hist = <<>>
 
-Step(h) == Len(hist) < MaxOps /\ hist' = Append(hist, h)
+Step(h) == Len(hist) < MaxOps /\ hist' = Append(hist, h) /\ ~Busy /\ rd' = rd      \* complete (non-overlapping) operations
+CStep(h) == Len(hist) < MaxOps /\ hist' = Append(hist, h)
 
 Upload(op, k) ==
   LET kind == KindOf(op)
@@ -123,6 +133,43 @@ SetPrimFail(on) ==
   /\ last' = Res("env", "", <<>>, TRUE, <<>>, <<>>, <<>>)
   /\ UNCHANGED <<prim, rep, written>>
 
+\* ---- two overlapping reads -----------------------------------------------------------------------
+\* While a read is in flight only reads start / return (no write or environment change), so "what the primary
+\* answers" is the same at start and at return.
+ReadStart(r, op, k, rng) ==
+  LET kind == KindOf(op)
+      st == rep[kind][k]
+      r1 == RepRead(kind, k, rng)
+      nofb == DevNoFallback \/ (DevIndexNoFallback /\ op = "DownloadIndex") \/ (DevNoFallbackOnCtxErr /\ st \in {"timeout", "canceled"})
+      rng2 == IF DevFallbackDropsRange THEN <<>> ELSE rng
+      leaders == {q \in Readers \ {r} : rd[q].st = "gate" /\ rd[q].op = op /\ rd[q].k = k} IN
+  /\ Concurrent /\ rd[r].st = "idle" /\ st # "stalled"
+  /\ CStep([a |-> "ReadStart", r |-> r, op |-> op, k |-> k, rng |-> rng])
+  /\ IF r1.ok \/ nofb
+     THEN /\ last' = ResA(op, k, rng, r1.ok, r1.bytes, <<>>, <<Call("R", op, k, rng)>>, TRUE) /\ rd' = rd
+     ELSE /\ last' = Res("env", k, <<>>, TRUE, <<>>, <<>>, <<>>)
+          /\ IF DevCoalesceIgnoresRange /\ leaders # {}
+             THEN rd' = [rd EXCEPT ![r] = [st |-> "flight", op |-> op, k |-> k, rng |-> rng, asked |-> rng2, lead |-> CHOOSE q \in leaders : TRUE, res |-> Err]]
+             ELSE rd' = [rd EXCEPT ![r] = [st |-> "gate", op |-> op, k |-> k, rng |-> rng, asked |-> rng2, lead |-> "", res |-> Err]]
+  /\ UNCHANGED <<prim, primFail, rep, written>>
+\* the primary GET of reader r returns: r completes; readers coalesced onto it receive the same result
+PrimaryGetReturn(r) ==
+  LET x == rd[r]
+      r2 == PrimRead(KindOf(x.op), x.k, x.asked) IN
+  /\ x.st = "gate"
+  /\ CStep([a |-> "Return", r |-> r])
+  /\ last' = ResA(x.op, x.k, x.rng, r2.ok, r2.bytes, <<>>, <<Call("R", x.op, x.k, x.rng), Call("P", x.op, x.k, x.asked)>>, TRUE)
+  /\ rd' = [q \in Readers |-> IF q = r THEN Idle
+                               ELSE IF rd[q].st = "flight" /\ rd[q].lead = r THEN [rd[q] EXCEPT !.st = "done", !.res = r2] ELSE rd[q]]
+  /\ UNCHANGED <<prim, primFail, rep, written>>
+JoinFinish(r) ==
+  LET x == rd[r] IN
+  /\ x.st = "done"
+  /\ CStep([a |-> "JoinFinish", r |-> r])
+  /\ last' = ResA(x.op, x.k, x.rng, x.res.ok, x.res.bytes, <<>>, <<Call("R", x.op, x.k, x.rng)>>, TRUE)
+  /\ rd' = [rd EXCEPT ![r] = Idle]
+  /\ UNCHANGED <<prim, primFail, rep, written>>
+
 Next == \/ \E k \in Keys : \/ Upload("UploadSegment", k) \/ Upload("UploadIndex", k)
                            \/ Delete("DeleteSegment", k) \/ Delete("DeleteIndex", k)
                            \/ \E rng \in Ranges \cup {<<>>} : Download("DownloadSegment", k, rng)
@@ -130,6 +177,9 @@ Next == \/ \E k \in Keys : \/ Upload("UploadSegment", k) \/ Upload("UploadIndex"
                            \/ \E kind \in Kinds, s \in RepStates : SetRep(kind, k, s)
         \/ List \/ Ensure
         \/ \E on \in BOOLEAN : SetPrimFail(on)
+        \/ \E r \in Readers : \/ \E k \in Keys : \/ \E rng \in Ranges \cup {<<>>} : ReadStart(r, "DownloadSegment", k, rng)
+                                               \/ ReadStart(r, "DownloadIndex", k, <<>>)
+                              \/ PrimaryGetReturn(r) \/ JoinFinish(r)
 Spec == Init /\ [][Next]_vars
 
 \* what the primary answers to the question the last operation asked, evaluated in the state the operation ran in
@@ -145,6 +195,6 @@ C44_ReachesPrimary == P!C44_ReachesPrimary
 \* model sanity (not part of the property): a present replica copy was written to the primary before
 ReplicaIsCopy == \A kd \in Kinds, k \in Keys : rep[kd][k] = "present" => written[kd][k]
 
-View == <<prim, primFail, rep, written, last>>   \* hist is pure history: the reachable state space is finite without any bound on the number of operations
+View == <<prim, primFail, rep, written, rd, last>>   \* hist is pure history: the reachable state space is finite without any bound on the number of operations
 EmitSched == PrintT(<<"SCHED", ToJson(hist)>>)
 ====
